@@ -31,6 +31,7 @@ form-9 DMIG uses column numbers that are not 1..n and is read back both by defau
 import io
 import itertools
 import json
+import math
 import os
 from fractions import Fraction
 
@@ -1571,6 +1572,115 @@ def _o_cord(case):
     return None
 
 
+def _local_to_rect(typ, p):
+    """coordinates of a point given in a rectangular (1), cylindrical (2: r, theta, z) or spherical
+    (3: r, theta from z, phi about z) system -> its rectangular coordinates in that system's axes"""
+    a, b, c = (float(v) for v in p)
+    if typ == 1:
+        return np.array([a, b, c])
+    if typ == 2:
+        t = math.radians(b)
+        return np.array([a * math.cos(t), a * math.sin(t), c])
+    t, f = math.radians(b), math.radians(c)
+    return np.array([a * math.sin(t) * math.cos(f), a * math.sin(t) * math.sin(f), a * math.cos(t)])
+
+
+def _o_cordchain(case):
+    """CORD2x systems that refer to one another (a tree over system 0 of any depth, ids in any order relative to the
+    chain, cards in any order): wtcoordcards -> rdcord2cards gives, for every system, [cid, type, 0], its origin and
+    its axes in basic.  The reference is computed here from the nine numbers AS READ BACK by rdcards (so the
+    written precision plays no role) by the textbook construction: z along AB, y along z x AC, x = y x z."""
+    bulk = _bulk()
+    ci = {}
+    for cid, typ, ref, abc in case["systems"]:
+        name = {1: "CORD2R", 2: "CORD2C", 3: "CORD2S"}[typ]
+        ci[cid] = [name, np.vstack([[cid, typ, ref], np.array(abc, dtype=float)])]
+    text = _write(bulk.wtcoordcards, ci)
+    if text.startswith("error"):
+        return ("wtcoordcards-raises", "wtcoordcards raises", text, "CORD2x cards")
+    cards = _read(bulk.rdcards, text, "cord2", return_var="list")
+    if isinstance(cards, str) or cards is None or len(cards) != len(ci):
+        return ("cord2-cards", "rdcards does not find the written CORD2x cards", str(cards)[:200], "%d cards" % len(ci))
+    typ_of = {cid: typ for cid, typ, _, _ in case["systems"]}
+    read = {int(c[0]): (int(c[1]), [float(v) for v in c[2:11]]) for c in cards}
+    if sorted(read) != sorted(ci) or any(read[cid][0] != ref for cid, _, ref, _ in case["systems"]):
+        return ("cord2-roundtrip-ids", "CORD2x ids / reference ids differ", sorted(read.items())[:4], sorted(ci)[:4])
+    try:
+        got = bulk.rdcord2cards(io.StringIO(text))
+    except Exception as e:  # noqa: BLE001
+        return ("cordchain-rdcord2cards-raises", "rdcord2cards raises on a written chain of CORD2x cards (depth %d, ids %s "
+                "along the deepest chain)" % (case["depth"], case["order"]), type(e).__name__ + ": " + str(e)[:160],
+                "the coordinate systems")
+    if sorted(int(k) for k in got if k != 0) != sorted(ci):  # the basic system 0 is always present
+        return ("cordchain-ids", "rdcord2cards returns other system ids than were written", sorted(int(k) for k in got), sorted(ci))
+    solved = {0: (np.zeros(3), np.eye(3))}
+
+    def basic(cid):
+        if cid not in solved:
+            ref, nine = read[cid]
+            o, T = basic(ref)
+            rt = typ_of.get(ref, 1)
+            A, B, C = (o + T @ _local_to_rect(rt, nine[3 * k:3 * k + 3]) for k in range(3))
+            z = (B - A) / np.linalg.norm(B - A)
+            y = np.cross(z, C - A)
+            y /= np.linalg.norm(y)
+            solved[cid] = (A, np.column_stack([np.cross(y, z), y, z]))
+        return solved[cid]
+
+    for cid, typ, ref, _ in case["systems"]:
+        o, T = basic(cid)
+        g = np.asarray(got[cid], dtype=float)
+        if g.shape != (5, 3) or g[0].tolist() != [cid, typ, 0]:
+            return ("cordchain-header", "first row of system %d is not [cid, type, 0]" % cid, g[0].tolist(), [cid, typ, 0])
+        scale = max(1.0, float(np.abs(o).max()))
+        if np.abs(g[1] - o).max() > 1e-9 * scale * case["depth"] or np.abs(g[2:] - T).max() > 1e-9 * case["depth"]:
+            return ("cordchain-geometry", "system %d (depth %d, ids %s): origin / axes in basic differ from the construction "
+                    "through its reference systems" % (cid, case["depth"], case["order"]),
+                    g[1:].tolist(), np.vstack([o, T]).tolist())
+    return None
+
+
+def _gen_cordchain(rng):
+    """a tree of 1..7 systems; the deepest chain has 1..5 levels; ids increasing, decreasing or shuffled along it;
+    well-conditioned geometry (|AB| ~ 1, AC at 35..145 degrees from AB), origins off the reference's z axis"""
+    n = rng.randint(1, 7)
+    order = rng.choice(["increasing", "decreasing", "shuffled"])
+    ids = sorted(rng.sample(range(1, 400), n))
+    if order == "decreasing":
+        ids.reverse()
+    elif order == "shuffled":
+        rng.shuffle(ids)
+    chainy = rng.random() < 0.6
+    parent, depth, systems = {}, {0: 0}, []
+    for k, cid in enumerate(ids):
+        ref = 0 if k == 0 else (ids[k - 1] if chainy and rng.random() < 0.85 else rng.choice([0] + ids[:k]))
+        parent[cid] = ref
+        depth[cid] = depth[ref] + 1
+    typ = {cid: rng.randint(1, 3) for cid in ids}
+    for cid in ids:
+        rt = typ.get(parent[cid], 1)
+
+        def pt():
+            if rt == 1:
+                return np.array([rng.uniform(-5, 5) for _ in range(3)])
+            if rt == 2:
+                return np.array([rng.uniform(0.5, 5), rng.uniform(-170, 170), rng.uniform(-5, 5)])
+            return np.array([rng.uniform(0.5, 5), rng.uniform(20, 160), rng.uniform(-170, 170)])
+
+        for _ in range(200):
+            A, B, C = pt(), pt(), pt()
+            a, b, c = (_local_to_rect(rt, q) for q in (A, B, C))
+            u, w = b - a, c - a
+            nu, nw = np.linalg.norm(u), np.linalg.norm(w)
+            if 0.5 < nu < 8 and 0.5 < nw < 8 and abs(float(u @ w)) / (nu * nw) < 0.8:
+                break
+        else:
+            return None
+        systems.append((cid, typ[cid], parent[cid], [[float(v) for v in q] for q in (A, B, C)]))
+    rng.shuffle(systems)  # the order of the cards in the file is free
+    return {"systems": systems, "depth": max(depth.values()), "order": order if n > 1 else "single"}
+
+
 def _o_dmig_form9(d, a, text):
     """form 9: the header NCOL must be the largest column number; rddmig(expanded=True) rebuilds
     columns 1..NCOL and puts every written column at its own number"""
@@ -1913,6 +2023,16 @@ def _gen_oracle_cases(ctx):
                 abc = [A, [A[0], A[1], A[2] + 1.0], [A[0] + 1.0, A[1], A[2]]]
             systems.append((10 * (k + 1) + rng.randint(0, 9), typ, rng.choice([0, 0, 5]), abc))
         cases.append(("cord", {"systems": systems}))
+    # CORD2x systems that refer to one another: chains of any depth with ids in any order along the chain
+    cases.append(("cordchain", {"systems": [(30, 1, 20, [[1.0, 30.0, 1.0], [2.0, 80.0, 2.0], [1.0, 150.0, -1.0]]),
+                                            (20, 2, 10, [[1.0, 30.0, 40.0], [2.0, 60.0, 10.0], [1.5, 100.0, 100.0]]),
+                                            (10, 3, 0, [[1.0, 2.0, 3.0], [1.0, 2.0, 4.0], [2.0, 2.0, 3.0]])],
+                                "depth": 3, "order": "decreasing"}))
+    for _ in range(ctx.pick(250, 2500)):
+        c = _gen_cordchain(rng)
+        if c is not None:
+            cases.append(("cordchain", c))
+            ctx.count("oracle:cordchain:depth=%d:%s" % (min(c["depth"], 4), c["order"]))
     # form-9 DMIG with column numbers that are not 1..n
     for cols in ([2, 5, 9], [7], [3, 1], [1, 2, 3], [12, 4]):
         nr = rng.randint(1, 4)
@@ -1995,6 +2115,9 @@ def _run_oracle_case(kind, case, known):
         return [r] if r else []
     if kind == "vecwrite":
         r = _o_vecwrite(case)
+        return [r] if r else []
+    if kind == "cordchain":
+        r = _o_cordchain(case)
         return [r] if r else []
     return []
 
